@@ -784,3 +784,112 @@ Proof.
       * cbn in H'. injection H' as Hx Hrest. subst x. destruct (Hsplit pre l' post Hrest) as [A B].
         split; [cbn [from_buffer fold_right]; unfold from_buffer in A; exact A|exact B].
 Qed.
+
+(* ------------------------------------------------------------------ chains of throttle handlers *)
+Lemma ready_time_ge h t w o trdy batch :
+  0 <= oj2 o -> ready_time h t w o = Some (trdy, batch) -> t <= trdy /\ batch = batch_size h (olen o).
+Proof.
+  intros Hj. unfold ready_time.
+  destruct (lim_phase (htotal h) Total (wtotal w) t (batch_size h (olen o))) as [[s1 r1] e1] eqn:E1.
+  destruct r1 as [| |d1]; try discriminate.
+  pose proof (lim_phase_nonneg _ _ _ _ _ _ _ _ E1) as Hd1.
+  destruct (lim_phase (hlocal h) (Local (oc o)) (wlocal w (oc o)) (t + d1 + oj2 o) (batch_size h (olen o))) as [[s2 r2] e2] eqn:E2.
+  destruct r2 as [| |d2]; try discriminate.
+  pose proof (lim_phase_nonneg _ _ _ _ _ _ _ _ E2) as Hd2.
+  intro H; inversion H; subst. split; [lia|reflexivity].
+Qed.
+
+(* a stage whose limiters let the Read through records the bytes at the instant trdy + oj3 *)
+Lemma read_step_pull_time h t w o j trdy batch w' e c tt b bs er :
+  ready_time h t w o = Some (trdy, batch) -> read_step h t w (set_j3 o j) = (w', e) ->
+  In (EPull c tt b bs er) e -> tt = trdy + j.
+Proof.
+  unfold ready_time, read_step. cbn [set_j3 oc olen oj2 oj3 oavail oerr].
+  destruct (lim_phase (htotal h) Total (wtotal w) t (batch_size h (olen o))) as [[s1 r1] e1] eqn:E1.
+  destruct r1 as [| |d1]; try discriminate.
+  destruct (lim_phase (hlocal h) (Local (oc o)) (wlocal w (oc o)) (t + d1 + oj2 o) (batch_size h (olen o))) as [[s2 r2] e2] eqn:E2.
+  destruct r2 as [| |d2]; try discriminate.
+  intro H; inversion H; subst. intro H2; inversion H2; subst. intro Hin.
+  apply in_app_or in Hin. destruct Hin as [Hin|Hin].
+  { destruct (lim_phase_events _ _ _ _ _ _ _ _ _ E1 Hin) as [[i [jj Hx]]|[i [t' [n Hx]]]]; discriminate. }
+  apply in_app_or in Hin. destruct Hin as [Hin|[Hin|[]]].
+  { destruct (lim_phase_events _ _ _ _ _ _ _ _ _ E2 Hin) as [[i [jj Hx]]|[i [t' [n Hx]]]]; discriminate. }
+  inversion Hin; subst. reflexivity.
+Qed.
+
+(* every stage of a chain keeps its own ledger invariant for each of its finite limiters *)
+Definition stage_ok (t0 : Z) (s : stage) : Prop :=
+  match s with (h, w, tr) =>
+    handler_ok h /\ forall id L, lim_of h id = Some L -> linf L = false -> WI id L t0 w tr
+  end.
+
+Lemma stage_step t0 h w tr t o w' e :
+  stage_ok t0 (h, w, tr) -> op_ok o -> t0 <= t -> read_step h t w o = (w', e) -> stage_ok t0 (h, w', tr ++ e).
+Proof.
+  intros [Hh HW] Ho Ht Hr. split; [exact Hh|]. intros id L Hlim Hinf.
+  assert (Hok : limiter_ok L) by (destruct Hh as [HT HL]; destruct id; cbn in Hlim; auto).
+  eapply read_step_inv; eauto. apply batch_nonneg; [exact Hh|apply Ho].
+Qed.
+
+Lemma chain_read_ok t0 : forall ss t o jraw ss' tp,
+  chain_read ss t o jraw = (ss', tp) -> op_ok o -> 0 <= jraw -> t0 <= t ->
+  Forall (stage_ok t0) ss ->
+  Forall (stage_ok t0) ss' /\ t <= tp /\ map (fun s => fst (fst s)) ss' = map (fun s => fst (fst s)) ss.
+Proof.
+  induction ss as [|[[h w] tr] rest IH]; intros t o jraw ss' tp H Ho Hj Ht Hall; cbn [chain_read] in H.
+  - inversion H; subst. split; [constructor|split; [lia|reflexivity]].
+  - inversion Hall as [|? ? Hs Hrest]; subst. pose proof Ho as (Holen & Hodel & Hj2 & Hj3).
+    destruct (ready_time h t w o) as [[trdy batch]|] eqn:Er.
+    + destruct (ready_time_ge _ _ _ _ _ _ Hj2 Er) as [Hge Hb].
+      destruct (chain_read rest trdy (set_len o batch) jraw) as [rest' tpull] eqn:Ec.
+      destruct (read_step h t w (set_j3 o (tpull - trdy))) as [w' e] eqn:Ers. inversion H; subst ss' tp.
+      assert (Hob : op_ok (set_len o batch)).
+      { unfold op_ok; cbn. repeat split; try assumption. subst batch. apply batch_nonneg; [apply Hs|exact Holen]. }
+      destruct (IH _ _ _ _ _ Ec Hob Hj ltac:(lia) Hrest) as (A & B & C).
+      split; [|split; [lia|cbn [map fst]; rewrite C; reflexivity]].
+      constructor; [|exact A].
+      apply (stage_step t0 h w tr t (set_j3 o (tpull - trdy)) w' e Hs); [unfold op_ok; cbn; repeat split; (assumption || lia)|exact Ht|exact Ers].
+    + destruct (read_step h t w o) as [w' e] eqn:Ers. inversion H; subst ss' tp.
+      split; [|split; [lia|reflexivity]]. constructor; [|exact Hrest]. exact (stage_step t0 h w tr t o w' e Hs Ho Ht Ers).
+Qed.
+
+Definition read_ok (t0 : Z) (r : Z * op * Z) : Prop :=
+  match r with (t, o, j) => t0 <= t /\ op_ok o /\ 0 <= j end.
+
+Lemma chain_run_ok t0 reads : forall ss, Forall (read_ok t0) reads -> Forall (stage_ok t0) ss ->
+  Forall (stage_ok t0) (chain_run ss reads) /\
+  map (fun s => fst (fst s)) (chain_run ss reads) = map (fun s => fst (fst s)) ss.
+Proof.
+  induction reads as [|[[t o] j] reads IH]; intros ss Hr Hs; cbn [chain_run fold_left]; [split; [exact Hs|reflexivity]|].
+  inversion Hr as [|? ? Hrd Hr']; subst. cbn in Hrd. destruct Hrd as (Ht & Ho & Hj).
+  destruct (chain_read ss t o j) as [ss' tp] eqn:Ec. cbn [fst].
+  destruct (chain_read_ok t0 _ _ _ _ _ _ Ec Ho Hj Ht Hs) as (A & _ & C).
+  destruct (IH ss' Hr' A) as (A' & C'). split; [exact A'|]. unfold chain_run in C'. rewrite C', C. reflexivity.
+Qed.
+
+Lemma chain_init_ok t0 hs sess : Forall handler_ok hs -> Forall (stage_ok t0) (chain_init hs sess).
+Proof.
+  intro H. unfold chain_init. induction H as [|h hs Hh Hhs IH]; cbn; constructor; [|exact IH].
+  split; [exact Hh|]. intros id L Hlim Hinf. apply WI_init; [exact Hlim|].
+  destruct Hh as [HT HL]; destruct id; cbn in Hlim; auto.
+Qed.
+
+(* the chain's output respects every stage's bound: whatever the other throttle handlers of the
+   chain do, the bytes that passed stage (h, tr) by any instant T stay within that handler's burst
+   + rate * (T - t0 + 1ns) (+ rate * backward clock jumps), per connection (id = Local c) and for
+   its total limiter (id = Total); the handlers of the chain stay in place *)
+Lemma chain_bound hs sess reads t0 :
+  Forall handler_ok hs -> Forall (read_ok t0) reads ->
+  map (fun s => fst (fst s)) (chain_run (chain_init hs sess) reads) = hs /\
+  forall h w tr id L T, In (h, w, tr) (chain_run (chain_init hs sess) reads) ->
+    lim_of h id = Some L -> linf L = false -> t0 <= T ->
+    pulled (sel id) T tr * unit L <= lburst L * unit L + lp L * (T - t0 + 1) + lp L * back_sum id tr.
+Proof.
+  intros Hhs Hreads.
+  destruct (chain_run_ok t0 reads (chain_init hs sess) Hreads (chain_init_ok t0 hs sess Hhs)) as [A C].
+  split.
+  - rewrite C. unfold chain_init. rewrite map_map. cbn. apply map_id.
+  - intros h w tr id L T Hin Hlim Hinf HT.
+    assert (Hs : stage_ok t0 (h, w, tr)) by (eapply Forall_forall in A; eauto).
+    destruct Hs as [_ HW]. destruct (HW id L Hlim Hinf) as (_ & _ & _ & _ & Hb). apply Hb. exact HT.
+Qed.
